@@ -90,22 +90,24 @@ ToProcess(d, b) ==
 (* the cache key of JsonImmutableFileDigestCacheProvider: the file name *)
 CacheKey(n) == n
 
-(* compute_merkle_tree / compute_protocol_message(beacon b), cache consulted or not *)
-Outcome(node, b, useCache) ==
-    LET d  == disk[node]
-        tp == ToProcess(d, b)
+(* compute_merkle_tree / compute_protocol_message(beacon b) on disk d with cache content  *)
+(* cm (a function file name -> digest), cache consulted or not                            *)
+OutcomeOf(d, cm, b, useCache) ==
+    LET tp == ToProcess(d, b)
         fs == FilesOf(d, tp.src)
-        dg(n) == IF useCache /\ CacheKey(n) \in DOMAIN cache[node]
-                 THEN cache[node][CacheKey(n)]                 \* fetch_immutables_cached
+        dg(n) == IF useCache /\ CacheKey(n) \in DOMAIN cm
+                 THEN cm[CacheKey(n)]                          \* fetch_immutables_cached
                  ELSE Digest(fs[n])                            \* compute_raw_hash
-    IN  IF ~tp.ok THEN [ok |-> FALSE, root |-> <<>>, newc |-> cache[node]]
+    IN  IF ~tp.ok THEN [ok |-> FALSE, root |-> <<>>, newc |-> cm]
         ELSE [ok   |-> TRUE,
               root |-> Root([i \in DOMAIN tp.files |-> dg(tp.files[i])]),
               newc |-> IF useCache                             \* update_cache
-                       THEN [k \in DOMAIN cache[node] \cup {CacheKey(n) : n \in Range(tp.files)} |->
-                               IF k \in DOMAIN cache[node] THEN cache[node][k]
+                       THEN [k \in DOMAIN cm \cup {CacheKey(n) : n \in Range(tp.files)} |->
+                               IF k \in DOMAIN cm THEN cm[k]
                                ELSE Digest(fs[CHOOSE n \in Range(tp.files) : CacheKey(n) = k])]
-                       ELSE cache[node]]
+                       ELSE cm]
+
+Outcome(node, b, useCache) == OutcomeOf(disk[node], cache[node], b, useCache)
 
 Compute(node, b, useCache) ==
     LET o == Outcome(node, b, useCache) IN
@@ -129,7 +131,10 @@ Judged     == {r \in results : r.ok /\ ~Excused(r)}
 (* files, files beyond the beacon, cache history                                     *)
 Determined == \A r, s \in Judged : CoveredOf(r) = CoveredOf(s) => r.root = s.root
 
-(* without a cache, any change of a covered file (content, presence) changes it      *)
+(* without a cache, it changes whenever a byte of a covered file changes or a covered  *)
+(* file is missing: T is S with some files changed and / or missing                     *)
+NamesOf(S)     == {x.name : x \in S}
+Perturbs(S, T) == S # T /\ NamesOf(T) \subseteq NamesOf(S)
 Sensitive  == \A r, s \in Judged :
-                 ~r.cache /\ ~s.cache /\ CoveredOf(r) # CoveredOf(s) => r.root # s.root
+                 ~r.cache /\ ~s.cache /\ Perturbs(CoveredOf(r), CoveredOf(s)) => r.root # s.root
 =============================================================================
